@@ -779,7 +779,7 @@ fn gen_val(rng: &mut Rng, depth: usize) -> Val {
         1 => Val::Int(*rng.pick(&[0, 1, -1, i32::MAX as i64, i32::MIN as i64 + 1, 65536])),
         2 => Val::Real(*rng.pick(&[0.5, -12.25, 1000.125, 0.0625, 3.75, 0.00005, -0.00000015, 123456.79, 16777216.0, 1e16, 3.0e38])),
         3 => Val::Bool(rng.coin()),
-        4 => Val::Name(rng.pick(&["Alpha", "B2", "Type", "x-y", "N.1"]).to_string()),
+        4 => Val::Name(rng.pick(&["Alpha", "B2", "Type", "x-y", "N.1", "a b", "a/b", "a(b", "a#20b", "caf\u{e9}", "50%", "<x>"]).to_string()),
         5 => Val::Str(rng.pick(&[&b"hello"[..], b"(paren) \\ back", b"", b"\xfe\xff\x00A", b"two\nlines"]).to_vec()),
         6 => Val::Ref(1 + rng.below(3) as u32, 0),
         7 => Val::Null,
@@ -789,7 +789,7 @@ fn gen_val(rng: &mut Rng, depth: usize) -> Val {
             let n = rng.usize(4);
             let mut d: Dict = vec![];
             for i in 0..n {
-                let k = format!("{}{}", rng.pick(&["K", "Key", "A"]), i);
+                let k = format!("{}{}", rng.pick(&["K", "Key", "A", "a b", "x/y", "caf\u{e9}", "#", "(p)"]), i);
                 d.push((k, gen_val(rng, depth - 1)));
             }
             Val::Dict(d)
